@@ -319,8 +319,11 @@ pub fn run(ctx: &Ctx) -> (Report, String) {
         let per_thread = if miri { 1 } else { 3 };
         let events: Mutex<Vec<Event>> = Mutex::new(vec![]);
         let bad: Mutex<Vec<(usize, usize, usize, usize)>> = Mutex::new(vec![]);
+        // all threads of a round start decoding together, so that their calls really overlap
+        let gate = std::sync::Barrier::new(t);
         std::thread::scope(|s| {
             for th in 0..t {
+                let gate = &gate;
                 let hists = &hists;
                 let base = &base;
                 let ticket = &ticket;
@@ -337,6 +340,7 @@ pub fn run(ctx: &Ctx) -> (Report, String) {
                         })
                         .collect();
                     let mut local: Vec<Event> = vec![];
+                    gate.wait();
                     loop {
                         let live: Vec<usize> = (0..inst.len()).filter(|i| inst[*i].2 < hists[inst[*i].0].calls.len()).collect();
                         if live.is_empty() {
